@@ -301,6 +301,9 @@ func (g *progGen) stmt(depth int, inAction bool) *SX {
 	case 7:
 		return L(append([]*SX{A("cleanup")}, g.cleanupBody(1)...)...)
 	case 8:
+		if r.chance(1, 2) {
+			return L(A("ctxlive"), N(int64(g.nextSite%8)))
+		}
 		return L(A("ctx"))
 	case 9:
 		if depth > 0 && !inAction {
